@@ -40,7 +40,16 @@ class LambdaTokenTranslator(AbstractTranslator):
                 # "3", "-3": a text that denotes a number selects the cells that hold this number (dateutil would read
                 # it as the third day of the current month)
                 parsed_literal = [('=', literal_value)]
-            if parsed_literal:
+            joined = re.match(r'(>=|<=|<>|>|<|=)?(.*)$', literal_value if isinstance(literal_value, str)
+                              else '%.15g' % literal_value, re.DOTALL) \
+                if expression and literal_value is not None and not isinstance(literal_value, bool) else None
+            if joined and joined.group(2):
+                # ">2"&B5, "x"&B5, 2&B5: the text that follows the operator goes on in the expression - the criterion is
+                # what the two give together (">27"), not the literal alone
+                condition_symbol = {'<>': '!=', '=': '==', None: '=='}.get(joined.group(1), joined.group(1))
+                condition_value = f'self._criterion_operand({repr(joined.group(2))}' \
+                                  f'+self._excel_value_to_string({expression}))'
+            elif parsed_literal:
                 # ">5", "<>apple", "=3", or a bare operator that is completed by & expression
                 operator, operand = parsed_literal[0]
                 condition_symbol = {'<>': '!=', '=': '=='}.get(operator, operator)
